@@ -533,6 +533,43 @@ impl WorldC {
                 format!("{} by {} changed the membership", kind, role),
             );
         }
+        // C09: a successful UpdateMembers makes the membership exactly what was requested
+        // (adds applied first, then removes), nothing more and nothing less
+        if kind == "update_members" && !self.is_stake {
+            let mut model = prem.clone();
+            if let Some(a) = v["update_members"]["add"].as_array() {
+                for m in a {
+                    if let (Some(addr), Some(w)) = (m["addr"].as_str(), m["weight"].as_u64()) {
+                        model.insert(addr.to_string(), w);
+                    }
+                }
+            }
+            if let Some(a) = v["update_members"]["remove"].as_array() {
+                for m in a {
+                    if let Some(addr) = m.as_str() {
+                        model.remove(addr);
+                    }
+                }
+            }
+            if model != postm {
+                let missing: Vec<&String> = model.keys().filter(|k| !postm.contains_key(*k)).collect();
+                let zero_weight_missing = missing.iter().any(|k| model[*k] == 0);
+                self.viol(
+                    out,
+                    "C09",
+                    "update-members-result",
+                    json!({"zero_weight_member_missing": zero_weight_missing}),
+                    format!(
+                        "UpdateMembers: membership is {:?}, the request applied to the previous membership gives {:?}",
+                        postm, model
+                    ),
+                );
+            }
+            let post_total: u128 = postm.values().map(|w| *w as u128).sum();
+            if post.total as u128 != post_total {
+                self.viol(out, "C09", "total-ne-sum-of-members", json!({"stake": false}), format!("after UpdateMembers total {} != sum {}", post.total, post_total));
+            }
+        }
         // which addresses may the call have touched?
         let named: Vec<String> = match kind.as_str() {
             "update_members" => {
